@@ -393,7 +393,6 @@ def ribosome(strict):
 
 def observe(tstr, ctx, strict=False):
     """-> ('ok', sequence, warnings) | ('raise', ExcName, message)"""
-    RENDERS[0] += 1
     try:
         p = ribosome(strict).synthesize(tstr, **ctx)
     except Exception as e:  # noqa: BLE001
@@ -411,8 +410,21 @@ def expect(tstr, ctx):
     return r
 
 
+_BAD: dict = {}
+
+
 def bad(tpl, ctx):
-    """None = unspecified; False = implementation output is the reference expansion; else a description."""
+    """None = unspecified; False = implementation output is the reference expansion; else a description.
+    Memoised (single segments x contexts recur in every attribution); rendering is a pure function of both."""
+    key = (tpl, repr(ctx))
+    if key not in _BAD:
+        if len(_BAD) > 200000:
+            _BAD.clear()
+        _BAD[key] = _bad(tpl, ctx)
+    return _BAD[key]
+
+
+def _bad(tpl, ctx):
     tstr = emit(tpl)
     ref = expect(tstr, ctx)
     if ref is None:
@@ -530,6 +542,7 @@ def judge(case):
     alts = ref.alternatives()
     viol = []
     desc = "template %r ctx %r: " % (tstr, ctx)
+    RENDERS[0] += 1
     if case["phase"] == "strict":
         got = observe(tstr, ctx, strict=True)
         needed = sorted(set(ref.needed_unbound))
@@ -546,7 +559,7 @@ def judge(case):
         if needed:
             viol.append(("strict-no-raise:%s" % needed[0][1], desc + "plain variable %r is needed and unbound but strict "
                          "mode returned %r" % (needed[0][0], got[1])))
-        elif got[1] not in alts and got[1] != observe(tstr, ctx)[1:2][0]:
+        elif got[1] not in alts and got[1:2] != observe(tstr, ctx)[1:2]:
             viol.append(("strict-output-differs", desc + "strict output %r, expected %r" % (got[1], alts[0])))
         return "ok", viol, ("strict", "ok", len(got[2]) > 0)
     got = observe(tstr, ctx)
@@ -569,7 +582,7 @@ def judge(case):
 # ----------------------------------------------------------------------------------------------
 TIERS = {
     # plan = [(kind level, number of segments)], w_values for phase 1
-    "quick": dict(plan=[("full", 0), ("full", 1), ("full", 2), ("std", 2), ("std", 3)], dplan=[("std", 1), ("std", 2), ("core", 3)],
+    "quick": dict(plan=[("full", 0), ("full", 1), ("std", 2), ("core", 3)], dplan=[("std", 1), ("core", 2), ("core", 3)],
                   w_values=(MISSING, "w")),
     "thorough": dict(plan=[("full", 0), ("full", 1), ("full", 2), ("std", 3), ("core", 4)],
                      dplan=[("full", 1), ("std", 2), ("std", 3), ("core", 4)],
@@ -627,7 +640,8 @@ def default_cases(item):
 
 
 def _case_order(case):
-    return (len(emit(case["tpl"])), emit(case["tpl"]), repr(case["ctx"]))
+    t = emit(case["tpl"])
+    return (len(t), t, str(case["phase"]), len(repr(case["ctx"])), repr(case["ctx"]))
 
 
 def _work(arg):
@@ -642,7 +656,7 @@ def _work(arg):
         gen = cases_for(it, cfg) if kind == "t" else default_cases(it)
         for case in gen:
             if case is None:
-                st["phase2_slot_w_not_referenced_skipped"] += len(PAYLOADS and (1,)) * 4
+                st["phase2_slot_w_not_referenced_skipped"] += 4
                 continue
             status, vs, oc = judge(case)
             ph = "phase%s" % case["phase"] if case["phase"] != "strict" else "strict"
@@ -716,7 +730,7 @@ def run(ctx):
         "filters, if/else, each with loop bodies, includes up to 3 levels/unknown) x every context (v over 11 values x w) "
         "non-strict, x value classes in strict mode, x every (payload, slot) in phase 2; states = distinct (template, "
         "context, mode) cases rendered by the real Ribosome and compared with the reference; transitions = real "
-        "synthesize() calls incl. single-segment attribution re-runs; non-trivial = output differs from the template "
+        "synthesize() calls that were compared (attribution re-runs of single segments are not counted); non-trivial = output differs from the template "
         "text (something was expanded) or strict mode",
         exhaustive=True,
     )
